@@ -169,6 +169,10 @@ def run(ck):
             ck.anchor_missing("3", "T6-provenance", q)
             continue
         pc = [cs for cs in b.calls() if cs.f and cs.f["path"].startswith("polling::Poller::") and cs.name == pm and not b.is_cleanup(cs.bb)]
+        # .. and no other registration call of the poller: a re-registration that falls back to *adding* the fd (ENOENT:
+        # it is not in the poller because the source is disabled) would put a disabled source back into the poller
+        others = [cs for cs in b.calls() if cs.f and cs.f["path"].startswith("polling::Poller::") and cs.name in ("add", "add_with_mode", "modify", "modify_with_mode", "delete") and cs.name != pm and not b.is_cleanup(cs.bb)]
+        ck.verdict(not others, "3", "T7-who-may-call", b, "no-other-poller-registration-call", "%s changes the poller only through Poller::%s" % (q, pm), "%s also calls Poller::%s: %s" % (q, "/".join(sorted({c.name for c in others})), "a re-registration or removal must not (re)create a registration - update() on a disabled source would put its fd back into the poller and its callback would run while disabled" if pm != "add_with_mode" else "a registration must not modify or delete another registration of the fd"), site=b.where(others[0].bb) if others else b.where())
         ck.verdict(len(pc) == 1, "3", "T7-who-may-call", b, "calls:Poller::%s" % pm, "exactly one call of Poller::%s" % pm, "%s does not call Poller::%s exactly once (%d)" % (q, pm, len(pc)), site=b.where())
         for cs in pc:
             bad = T.t2_all_exits(b, [0], [cs.bb])
@@ -213,6 +217,11 @@ def run(ck):
     # a self-directed update() re-registers (it must not be turned into a Disable that deletes the fd), shared with C09.4
     common.dispatch_infra(ck, "5")
     common.import_results(ck, C15, "4", "IoLoopInner", "4")
+    # an unregistered source forgets its poller (and token): a wrapper dropped later must not delete a newer registration
+    # of the same fd (shared with C07.2)
+    from props import C07 as _C07
+
+    common.import_results(ck, _C07, "2", "Generic", "1")
     # every (re)registration really reaches the poller: interest, mode and key last requested are the ones armed
     for q, callee in (("<Generic as EventSource>::register", "register"), ("<Generic as EventSource>::reregister", "reregister")):
         g = ck.opt_body(q)
